@@ -168,6 +168,58 @@ def _match_arm(h, src, variant, what):
     return m.group(1)
 
 
+def _literal_period_sites(h, text, rel):
+    """every function of a file outside the crate that sets `literal_period`, with ALL the Config flags it sets to
+    true: `v.f = true;` statements on the same variable, or the fields of a `Config { f: true, .. }` literal.
+    Anything else done to `literal_period` (set to false, to a non-literal, read) is a shape not understood."""
+    out = []
+    fns = [(m.start(), m.group(1)) for m in re.finditer(r"\bfn\s+([a-z_][a-z0-9_]*)", text)]
+    seen = set()
+    for m in re.finditer(r"\bliteral_period\b", text):
+        def _body_end(pos):
+            i = text.find("{", pos)
+            if i < 0:
+                return -1
+            depth = 0
+            for j in range(i, len(text)):
+                depth += {"{": 1, "}": -1}.get(text[j], 0)
+                if depth == 0:
+                    return j + 1
+            return len(text)
+        before = [(pos, name) for pos, name in fns if pos < m.start() < _body_end(pos)]
+        if not before:
+            h.fail(f"literal_period outside any function in {rel}")
+        pos, name = before[0]          # the outermost enclosing function
+        if name in seen:
+            continue
+        seen.add(name)
+        body = text[pos:_body_end(pos)]
+        # nested helper fns come before the statements of the enclosing fn here; use the text from the site's fn on
+        flags = set()
+        for mm in re.finditer(r"\b([a-z_][a-z0-9_]*)\s*\.\s*([a-z_][a-z0-9_]*)\s*=\s*([^;]+);", body):
+            var, f, rhs = mm.group(1), mm.group(2), mm.group(3).strip()
+            if f in ("anchor_begin", "anchor_end", "literal_period", "shortest_match", "case_insensitive"):
+                if rhs == "true":
+                    flags.add(f)
+                elif rhs != "false":
+                    h.fail(f"shape not understood in {rel} fn {name}: {var}.{f} = {rhs}")
+        lit = re.search(r"\bConfig\s*\{([^{}]*)\}", body)
+        if lit:
+            for part in lit.group(1).split(","):
+                part = part.strip()
+                if part in ("", "..Default::default()", "..Config::default()"):
+                    continue
+                mm = re.fullmatch(r"([a-z_][a-z0-9_]*)\s*:\s*(true|false)", part)
+                if not mm:
+                    h.fail(f"shape not understood in {rel} fn {name}: Config literal part {part!r}")
+                if mm.group(2) == "true":
+                    flags.add(mm.group(1))
+        if "literal_period" not in flags:
+            h.fail(f"shape not understood in {rel} fn {name}: literal_period is named but not set to true")
+        out.append((rel + "::" + name, sorted(flags)))
+    return out
+
+
 def fnmatch_config(h):
     lib = _no_tests(h.read("yash-fnmatch/src/lib.rs"))
     fields = _struct_fields(h, lib, "Config", "yash-fnmatch/src/lib.rs")
@@ -224,7 +276,7 @@ def fnmatch_config(h):
     case_flags = _flags_set(h, cbody, "case.rs config()")
 
     # who uses yash-fnmatch, and does anybody outside the crate touch `case_insensitive` (outside the model)?
-    callers, ci_users = [], []
+    callers, ci_users, lp_configs = [], [], []
     for root, dirs, files in os.walk(h.REPO):
         dirs[:] = [d for d in dirs if d not in ("target", ".git", "node_modules")]
         for f in files:
@@ -241,6 +293,8 @@ def fnmatch_config(h):
                 callers.append(rel)
             if re.search(r"\bcase_insensitive\b", text) and re.search(r"\byash_fnmatch\b", text):
                 ci_users.append(rel)
+            if re.search(r"\bliteral_period\b", text):
+                lp_configs += _literal_period_sites(h, _no_tests(text), rel)
 
     def pairs(ps):
         return "[" + ", ".join(f'("{a}", "{b}")' for a, b in ps) + "]"
@@ -265,6 +319,9 @@ def fnmatch_config(h):
         f"def fnmatchCallers : List String := {_lean_strs(sorted(callers))}\n\n"
         "/-- those of them that mention `case_insensitive` (the flag outside the model) -/\n"
         f"def caseInsensitiveUsers : List String := {_lean_strs(sorted(ci_users))}\n"
+        "\n/-- every function outside the crate that sets `literal_period`, with all the flags it sets to true -/\n"
+        "def literalPeriodConfigs : List (String × List String) := ["
+        + ", ".join(f'("{a}", {_lean_strs(b)})' for a, b in sorted(lp_configs)) + "]\n"
     )
     h.write("FnmatchConfig", body)
 
